@@ -7,8 +7,8 @@ id=$1; shift
 wt=/tmp/sr-$id
 git -C /repo worktree remove --force $wt 2>/dev/null; rm -rf $wt
 git -C /repo worktree add -q --detach $wt HEAD || exit 2
-git -C $wt apply /verif/seeded/$id/patch.diff || { echo "patch does not apply"; git -C /repo worktree remove --force $wt; exit 2; }
-cd /verif
+git -C $wt apply $(dirname "$0")/seeded/$id/patch.diff || { echo "patch does not apply"; git -C /repo worktree remove --force $wt; exit 2; }
+cd "$(dirname "$0")"
 mkdir -p /tmp/sr-out
 for c in "$@"; do
   out=$(VERIF_REPO=$wt VERIF_EVIDENCE_DIR=/tmp/sr-out VERIF_REPLAY_DIR=/tmp/sr-out VERIF_WORK_SUFFIX=-seed ./vcheck run $c 2>&1); rc=$?
